@@ -181,9 +181,7 @@ def generate(tier, seed, ctx):
                 cls="fam", orient=orient, pc=False)
         # ---- 3-D ------------------------------------------------------------------------------
         cheap = m in ("Trapezoidal", "Adaptive-Simpson")
-        for orient in range(8):
-            if not thorough and orient % 2 == 1 and orient not in (1, 7):
-                continue
+        for orient in range(8):     # the full orientation cross product of the three limit pairs
             (x1, x2), (y1, y2), (z1, z2) = _disjoint_pairs(rng, 3, orient)
             if orient % 2 == 0 or cheap:
                 ts = [(1.0, 1, 0, 0), (2.0, 0, 1, 0), (3.0, 0, 0, 1)]
@@ -202,21 +200,46 @@ def generate(tier, seed, ctx):
                 add("c13.fam3 %s 0 %s %s %s %s %s %s 1 %s %s %s" % (m, hx(x1), hx(x2), hx(y1), hx(y2), hx(z1), hx(z2),
                                                                  _famstr(g), _famstr(h), _famstr(k)), cls="fam", orient=orient, pc=False)
         # ---- spherical overload ---------------------------------------------------------------------
-        for t in range(4 * rep):
-            orient = rng.randrange(8) if t else 0
+        for t in range(2 * rep):      # full sphere: 4 pi * radial integral
+            orient = t % 2
+            r1, r2 = _pair(rng, 0.2, 3.0, orient)
+            ts = [(float(rng.choice([1, 2, 3])), rng.randint(0, 1 if cheap else 4), 0, 0), (0.5, 0, 0, 0)]
+            p = 0 if t < 1 else _param(rng, m, 6)
+            add("c13.sph %s %d %s %s %s %s %s %s 1 %s" % (m, p, hx(r1), hx(r2), hx(-1.0), hx(1.0), hx(0.0), hx(2 * math.pi), _terms(ts)),
+                cls="full", orient=orient, pc=p != 0)
+        # angular sub-ranges, the integrand depends on all three spherical coordinates: the FULL orientation cross
+        # product of (r, cos theta, phi) - reversing any subset of the pairs multiplies the result by the product of signs
+        # (quick tier, the two expensive methods: the three patterns with exactly two reversed pairs + one other)
+        if thorough or m not in ("Trapezoidal", "Tanh-Sinh"):
+            pats = list(range(8))
+        else:
+            pats = [3, 5, 6, rng.choice([0, 1, 2, 4, 7])]
+        for orient in pats:
             r1, r2 = _pair(rng, 0.2, 3.0, orient & 1)
-            if t % 2 == 0:    # full sphere: 4 pi * radial integral
-                c1, c2, f1, f2 = -1.0, 1.0, 0.0, 2 * math.pi
-                ts = [(float(rng.choice([1, 2, 3])), rng.randint(0, 1 if cheap else 4), 0, 0), (0.5, 0, 0, 0)]
-                orient &= 1
-            else:             # angular sub-ranges; the integrand depends on all three spherical coordinates
-                c1, c2 = _pair(rng, -0.95, 0.95, (orient >> 1) & 1)
-                f1, f2 = _pair(rng, -3.0, 3.0, (orient >> 2) & 1)
-                md = [1, 1, 1] if cheap else [3, 3, 2]
-                ts = _rterms(rng, 3, md, 2) + [(1.0, 1, 1, 1)]
-            p = 0 if t < 2 else _param(rng, m, 6)
+            c1, c2 = _pair(rng, -0.95, 0.95, (orient >> 1) & 1)
+            f1, f2 = _pair(rng, -3.0, 3.0, (orient >> 2) & 1)
+            md = [1, 1, 1] if cheap else [3, 3, 2]
+            ts = _rterms(rng, 3, md, 2) + [(1.0, 1, 1, 1), (4.0, 0, 0, 0)]
+            p = 0 if orient % 2 == 0 else _param(rng, m, 6)
             add("c13.sph %s %d %s %s %s %s %s %s 1 %s" % (m, p, hx(r1), hx(r2), hx(c1), hx(c2), hx(f1), hx(f2), _terms(ts)),
-                cls="full" if t % 2 == 0 else "sub", orient=orient, pc=p != 0)
+                cls="sub", orient=orient, pc=p != 0)
+        # axes of EQUAL width at different positions (distinct limits per axis, bit-identical widths)
+        for t in range(rep + 1):
+            w = rng.choice([1.0, 0.5, 2.0])
+            px, py, pz = rng.sample([-4.0, -2.0, 0.0, 2.0, 4.0], 3)
+            orient = rng.randrange(8)
+            X, Y, Z = [((q, q + w) if not (orient >> i) & 1 else (q + w, q)) for i, q in enumerate((px, py, pz))]
+            ts2 = [(1.0, 1, 2, 0), (3.0, 0, 0, 0)] if m != "Trapezoidal" else [(1.0, 1, 2, 0), (3.0, 0, 0, 0)]
+            p = 0 if t % 2 == 0 else _param(rng, m, 3)
+            add("c13.int2 %s %d %s %s %s %s 1 %s" % (m, p, hx(X[0]), hx(X[1]), hx(Y[0]), hx(Y[1]), _terms(ts2)),
+                cls="poly-eqw", orient=orient & 3, pc=p != 0)
+            ts3 = [(1.0, 1, 0, 0), (2.0, 0, 1, 0), (3.0, 0, 0, 1)] + ([] if m == "Trapezoidal" else [(1.0, 1, 2, 3)])
+            add("c13.int3 %s %d %s %s %s %s %s %s 1 %s" % (m, p, hx(X[0]), hx(X[1]), hx(Y[0]), hx(Y[1]), hx(Z[0]), hx(Z[1]), _terms(ts3)),
+                cls="poly-eqw", orient=orient, pc=p != 0)
+        if m == "Gauss-Legendre_2":      # exp(-x)/(1+y^2) on [0,1] x [2,3]
+            for p in (0, 31, 8):
+                add("c13.fam2 %s %d %s %s %s %s 1 %s %s" % (m, p, hx(0.0), hx(1.0), hx(2.0), hx(3.0), _famstr((0, 1.0, 0.0, 0.0)),
+                                                           _famstr((1, 1.0, 0.0, 0.0))), cls="fam-eqw", orient=0, pc=p)
     # ---- Adaptive-Simpson on rational bumps (fix ad02385: Find_Epsilon precision 1e-10) -------------------
     # the request that missed 1e-9 relative before the fix (2.8e-9), then a deterministic family of the same kind:
     # Lorentzian of width ~ interval, peak near an end / at the centre, plus an offset
@@ -285,6 +308,10 @@ def generate(tier, seed, ctx):
     osc = (0, 1.0, 2 * math.pi, 0.0)                 # exp(-x) cos(2 pi x) on [0,2]
     for (p1, p2) in ((4, 0), (3, 30), (5, 41), (30, 4), (4, 31), (0, 4)):
         seq([m1(G, p1, 0.0, 2.0, osc), m1(G, p2, 0.0, 2.0, osc)])
+    for (p1, p2) in ((0, 0), (31, 31), (8, 8)):       # same parameter, equal width, different position
+        e1, l1 = (0, 1.0, 0.0, 0.0), (1, 1.0, 0.0, 0.0)
+        seq([m1(G, p1, 0.0, 1.0, e1), m1(G, p2, 2.0, 3.0, l1), m1(G, p2, -1.0, 0.0, e1)])
+        seq([m1(G, p1, 2.0, 3.0, l1), m2(G, p2, 0.0, 1.0, 2.0, 3.0, e1, l1)])
     for t in range(3 * rep):
         a, b = _pair(rng, -5, 5, 0)
         f, g2 = _fam(rng, a, b), _fam(rng, a, b)
